@@ -494,7 +494,8 @@ def bar3d(h2: Histogram2D, ax: Axes3D, *, density: bool = False, **kwargs):
     else:
         colors = kwargs.pop("color", kwargs.pop("c", "blue"))
 
-    xpos, ypos = (arr.flatten() for arr in h2.get_bin_centers())
+    # Axes3D.bar3d anchors each box at its corner
+    xpos, ypos = (arr.flatten() for arr in h2.get_bin_left_edges())
     zpos = np.zeros_like(ypos)
     dx, dy = (arr.flatten() for arr in h2.get_bin_widths())
 
